@@ -45,6 +45,13 @@ type c12Writer struct {
 	commits int
 	status  int
 	body    bytes.Buffer
+	head    bool // the request method is HEAD
+	infos   int  // informational (1xx) headers sent before the response header
+}
+
+// bodyAllowed: net/http sends no body for HEAD requests and for 1xx, 204, 304
+func (w *c12Writer) bodyAllowed() bool {
+	return !w.head && w.status != 204 && w.status != 304 && !(w.status >= 100 && w.status <= 199)
 }
 
 func (w *c12Writer) Header() http.Header { return w.h }
@@ -56,13 +63,30 @@ func (w *c12Writer) WriteHeader(code int) {
 	if code < 100 || code > 999 {
 		panic(fmt.Sprintf("invalid WriteHeader code %v", code))
 	}
+	if code >= 100 && code <= 199 && code != 101 {
+		w.infos++ // informational: sent at once, the response header is still to come
+		return
+	}
 	w.commits = 1
 	w.status = code
 	w.snap = w.h.Clone()
+	// net/http: no Content-Length with 204 and 304 (nor Content-Type with 304)
+	if code == 204 || code == 304 {
+		w.snap.Del("Content-Length")
+	}
+	if code == 304 {
+		w.snap.Del("Content-Type")
+	}
 }
 func (w *c12Writer) Write(b []byte) (int, error) {
 	if w.commits == 0 {
 		w.WriteHeader(200)
+	}
+	if !w.bodyAllowed() {
+		if w.head {
+			return len(b), nil
+		}
+		return 0, http.ErrBodyNotAllowed
 	}
 	return w.body.Write(b)
 }
@@ -106,6 +130,12 @@ func (p c12Probe) ServeHTTP(w http.ResponseWriter, r *http.Request) (int, error)
 		b := hx.UnH(body)
 		if cl {
 			w.Header().Set("Content-Length", strconv.Itoa(len(b)))
+		}
+		if strings.HasPrefix(mode, "i") {
+			// 103 Early Hints first: informational, the response header proper follows
+			w.Header().Set("Link", "</c12.css>; rel=preload")
+			w.WriteHeader(http.StatusEarlyHints)
+			mode = mode[1:]
 		}
 		if st != "-" {
 			code, _ := strconv.Atoi(st)
@@ -392,6 +422,9 @@ func c12Body(w *c12Writer, inner []byte) string {
 
 func c12Classify(ce string, raw []byte, inner []byte) string {
 	var segs []string
+	if len(raw) == 0 {
+		return "-" // no body on the wire (HEAD, 204, 304, or nothing written), whatever Content-Encoding says
+	}
 	if ce == "gzip" {
 		br := bytes.NewReader(raw)
 		zr, err := stdgzip.NewReader(br)
@@ -420,7 +453,7 @@ func c12Classify(ce string, raw []byte, inner []byte) string {
 // c12PathAndBody: the request path for a case and the bytes the innermost handler writes.
 func c12PathAndBody(pathField, script string) (string, []byte, bool) {
 	ext := ".html"
-	if pathField != "html" {
+	if !strings.HasPrefix(pathField, "html") {
 		ext = ".bin"
 	}
 	sp := strings.Split(script, ":")
@@ -450,21 +483,28 @@ func c12PathAndBody(pathField, script string) (string, []byte, bool) {
 
 // c12Observe serves one request in-process and returns commits, status, Content-Length state, body.
 func c12Observe(srv *httpserver.Server, path, probe string, ae bool, inner []byte) string {
-	r := httptest.NewRequest("GET", "http://127.0.0.1"+path, nil)
+	return c12ObserveM(srv, "GET", path, probe, ae, inner)
+}
+
+func c12ObserveM(srv *httpserver.Server, method, path, probe string, ae bool, inner []byte) string {
+	r := httptest.NewRequest(method, "http://127.0.0.1"+path, nil)
 	if probe != "" {
 		r.Header.Set("X-Probe", probe)
 	}
 	if ae {
 		r.Header.Set("Accept-Encoding", "gzip")
 	}
-	w := &c12Writer{h: http.Header{}}
+	w := &c12Writer{h: http.Header{}, head: method == "HEAD"}
 	srv.ServeHTTP(w, r)
 	cl := "-"
 	if w.snap != nil {
 		if v := w.snap.Values("Content-Length"); len(v) > 0 {
-			if len(v) == 1 && v[0] == strconv.Itoa(w.body.Len()) {
+			switch {
+			case w.head:
+				cl = "h" // describes the body a GET would get: presence only
+			case len(v) == 1 && v[0] == strconv.Itoa(w.body.Len()):
 				cl = "="
-			} else {
+			default:
 				cl = "!"
 			}
 		}
@@ -501,25 +541,12 @@ func c12Eval(f []string) (string, []string) {
 	if !ok {
 		return "bad-case", nil
 	}
-	r := httptest.NewRequest("GET", "http://127.0.0.1"+path, nil)
-	r.Header.Set("X-Probe", f[3])
-	if f[2] == "1" {
-		r.Header.Set("Accept-Encoding", "gzip")
+	method := "GET"
+	if strings.HasSuffix(f[1], "-head") {
+		method = "HEAD"
 	}
 	sp := strings.Split(f[3], ":")
-	w := &c12Writer{h: http.Header{}}
-	srv.ServeHTTP(w, r)
-	cl := "-"
-	if w.snap != nil {
-		if v := w.snap.Values("Content-Length"); len(v) > 0 {
-			if len(v) == 1 && v[0] == strconv.Itoa(w.body.Len()) {
-				cl = "="
-			} else {
-				cl = "!"
-			}
-		}
-	}
-	out := fmt.Sprintf("%d %d %s %s", w.commits, w.status, cl, c12Body(w, inner))
+	out := c12ObserveM(srv, method, path, f[3], f[2] == "1", inner)
 
 	// only that request is affected: the follow-up requests (a plain file, and a template
 	// rendered and gzip-compressed, which goes through the pooled buffer and the pooled gzip
@@ -561,6 +588,11 @@ func c12Inners() []string {
 		"panic",
 		"panicafter:200:" + body, "panicafter:-:" + body, "panicafter:404:" + long,
 	}
+	// statuses without a body (net/http drops what the handler writes) and an informational prelude
+	out = append(out, c12Write("204", "plain", 0, 1, "w"), c12Write("304", "plain", 0, 0, "w"), c12Write("204", "tok", 0, 0, "c"),
+		c12Write("304", "tok", 0, 1, "w"), c12Write("204", "plain", 1, 0, "w"),
+		c12Write("200", "plain", 0, 1, "iw"), c12Write("404", "tok", 0, 0, "iw"), c12Write("-", "plain", 0, 0, "ic"),
+		c12Write("200", "texec", 0, 1, "iw"), c12Write("201", "plain", 1, 0, "iw"))
 	// bodies that are templates (render fine / do not parse / fail while executing) or plain, with
 	// and without an explicit Content-Length, written with Write, io.Copy, io.WriteString, Write+Flush
 	for _, k := range []string{"plain", "tok", "tparse", "texec"} {
@@ -614,7 +646,10 @@ func c12Gen(g *hx.Gen) {
 				stack := append(append([]string{}, sem...), ts...)
 				sort.Strings(stack)
 				for _, in := range inners {
-					for _, p := range []string{"html", "bin"} {
+					for _, p := range []string{"html", "bin", "html-head", "bin-head"} {
+						if strings.HasSuffix(p, "-head") && (strings.HasPrefix(in, "panicafter") || len(ts) == len(c12Transparent)) {
+							continue // keep the quick tier small: HEAD with no / a random set of pass-through wrappers
+						}
 						for _, ae := range []string{"1", "0"} {
 							if g.Thorough() && len(ts) != 0 && len(ts) != len(c12Transparent) && (p == "bin" && ae == "0") {
 								continue
@@ -647,7 +682,7 @@ func c12Gen(g *hx.Gen) {
 		for i := range body {
 			body[i] = "abcdefghijklmnopqrstuvwxyz \n<>/"[g.Rng.Intn(31)]
 		}
-		st := hx.Pick(g.Rng, []string{"-", "200", "201", "202", "400", "404", "410", "500", "502"})
+		st := hx.Pick(g.Rng, []string{"-", "200", "201", "202", "204", "304", "400", "404", "410", "500", "502"})
 		var in string
 		switch g.Rng.Intn(5) {
 		case 0:
@@ -655,13 +690,13 @@ func c12Gen(g *hx.Gen) {
 		case 1:
 			in = fmt.Sprintf("ret:%d:0", hx.Pick(g.Rng, []int{0, 200, 204, 301, 302, 304}))
 		case 2:
-			in = fmt.Sprintf("write:%s:%s:%d:plain:%d:%s", st, hx.H(body), g.Rng.Intn(2), g.Rng.Intn(2), hx.Pick(g.Rng, []string{"w", "c", "s", "wf", "nw"}))
+			in = fmt.Sprintf("write:%s:%s:%d:plain:%d:%s", st, hx.H(body), g.Rng.Intn(2), g.Rng.Intn(2), hx.Pick(g.Rng, []string{"w", "c", "s", "wf", "nw", "iw"}))
 		case 3:
 			in = "panic"
 		default:
 			in = fmt.Sprintf("panicafter:%s:%s", st, hx.H(body))
 		}
-		g.Case(strings.Join(stack, ","), hx.Pick(g.Rng, []string{"html", "bin"}), strconv.Itoa(g.Rng.Intn(2)), in)
+		g.Case(strings.Join(stack, ","), hx.Pick(g.Rng, []string{"html", "bin", "html", "bin", "html-head", "bin-head"}), strconv.Itoa(g.Rng.Intn(2)), in)
 	}
 }
 
@@ -672,7 +707,11 @@ func c12Gen(g *hx.Gen) {
 // script, then a plain request on the same keep-alive connection, then one on a fresh connection.
 
 func c12Get(tr *http.Transport, addr, path, probe string, ae bool) (int, string, string, []byte, error) {
-	req, err := http.NewRequest("GET", "http://"+addr+path, nil)
+	return c12GetM(tr, "GET", addr, path, probe, ae)
+}
+
+func c12GetM(tr *http.Transport, method, addr, path, probe string, ae bool) (int, string, string, []byte, error) {
+	req, err := http.NewRequest(method, "http://"+addr+path, nil)
 	if err != nil {
 		return 0, "", "", nil, err
 	}
@@ -737,7 +776,14 @@ func c12LiveEval(f []string) (string, []string) {
 	}
 	tr := &http.Transport{DisableCompression: true, MaxIdleConnsPerHost: 1}
 	defer tr.CloseIdleConnections()
-	st, ce, declared, body, err := c12Get(tr, addr, path, f[3], f[2] == "1")
+	method := "GET"
+	if strings.HasSuffix(f[1], "-head") {
+		method = "HEAD"
+	}
+	st, ce, declared, body, err := c12GetM(tr, method, addr, path, f[3], f[2] == "1")
+	if method == "HEAD" || st == 204 || st == 304 {
+		declared = "" // describes the body a GET would get / not sent at all
+	}
 	out := ""
 	if err != nil {
 		out = fmt.Sprintf("%d ! ERR:%s", st, strings.ReplaceAll(err.Error(), " ", "_"))
@@ -764,6 +810,8 @@ func c12LiveGen(g *hx.Gen) {
 			c12Write("-", k, 0, 1, "fw"), c12Write("200", k, 0, 0, "nw"),
 			"file:"+k+":"+hx.HS(c12Bodies[k]))
 	}
+	inners = append(inners, c12Write("204", "plain", 0, 1, "w"), c12Write("304", "tok", 0, 0, "w"),
+		c12Write("200", "plain", 0, 1, "iw"), c12Write("404", "tok", 0, 0, "iw"), c12Write("200", "texec", 0, 1, "iw"))
 	for m := 0; m < 1<<len(c12Semantic); m++ {
 		for _, em := range c12ErrModes {
 			var stack []string
@@ -785,6 +833,9 @@ func c12LiveGen(g *hx.Gen) {
 					p = "bin"
 				}
 				g.Case(strings.Join(stack, ","), p, "1", in)
+				if !strings.HasPrefix(in, "panicafter") && (g.Thorough() || g.Rng.Chance(1, 3)) {
+					g.Case(strings.Join(stack, ","), "html-head", "1", in)
+				}
 				if g.Thorough() {
 					g.Case(strings.Join(stack, ","), "bin", "0", in)
 				}
